@@ -55,6 +55,8 @@ pub const BASE_DOCS: &[BaseDoc] = &[
     BaseDoc { name: "s-scalar-then-op", text: "\"\"\"b\"\"\" scalar a @ a ( a : null ) { a }" },
     BaseDoc { name: "s-schema-interface", text: "schema { query : a } interface a { a : a ! }" },
     BaseDoc { name: "s-vardef-directive", text: "query ( $ a : a = [ 1 ] @ a ( a : true ) ) { a }" },
+    // zero literals in front of a Name, a punctuator and a string (the lexer's look-ahead after `0` / `-0`)
+    BaseDoc { name: "s-zero-literals", text: "{ a ( a : 0 b : -0 c : [ 0 E 0.5 ] d : { a : 0 b : \"s\" } ) }" },
 ];
 
 /// Boundary documents: the fine points of DESIGN A.2 written out, most of them one step
